@@ -438,21 +438,15 @@ func (db *SingleBucketBackend) PutObject(
 		return result, conflictingObjectName(objectName)
 	}
 
-	if objectDir != "." {
-		if err := db.fs.MkdirAll(objectDir, 0777); err != nil {
-			return result, err
-		}
-	}
-	if err := db.fs.Rename(tmpFilePath, objectFilePath); err != nil {
-		return result, err
-	}
-	committed = true
-
-	stat, err := db.fs.Stat(objectFilePath)
+	stat, err := db.fs.Stat(tmpFilePath)
 	if err != nil {
 		return result, err
 	}
 
+	// The metadata is written before the object is moved into place: if it
+	// cannot be stored (its flattened file name may be too long for the
+	// filesystem) the upload fails while the bucket is still untouched,
+	// instead of leaving an object behind that has no metadata.
 	storedMeta := &Metadata{
 		File:    objectName,
 		Hash:    hasher.Sum(nil),
@@ -460,9 +454,23 @@ func (db *SingleBucketBackend) PutObject(
 		Size:    stat.Size(),
 		ModTime: stat.ModTime(),
 	}
-	if err := db.metaStore.saveMeta(db.metaStore.metaPath(bucketName, objectName), storedMeta); err != nil {
+	rollbackMeta, err := db.metaStore.replaceMeta(db.metaStore.metaPath(bucketName, objectName), storedMeta)
+	if err != nil {
 		return result, err
 	}
+
+	if objectDir != "." {
+		if err := db.fs.MkdirAll(objectDir, 0777); err != nil {
+			rollbackMeta()
+			return result, err
+		}
+	}
+	if err := db.fs.Rename(tmpFilePath, objectFilePath); err != nil {
+		rollbackMeta()
+		removeEmptyDirs(db.fs, "", path.Dir(objectName))
+		return result, err
+	}
+	committed = true
 
 	return result, nil
 }
